@@ -14,7 +14,8 @@ fn gen_size(ctx: &mut Ctx, remaining: usize) -> usize {
     let r = ctx.rng.below(100);
     if r < ctx.prof.big_pct {
         // chunk-boundary and chunk-spanning sizes
-        match ctx.rng.below(4) {
+        match ctx.rng.below(5) {
+            4 => remaining, // exactly fills the current chunk
             0 => remaining.saturating_sub(ctx.rng.below(24) as usize),
             1 => remaining + ctx.rng.below(24) as usize,
             2 => 400 + ctx.rng.below(3000) as usize,
@@ -88,7 +89,7 @@ fn op_on_claimed(ctx: &mut Ctx, claimant: &dyn ScopeOps, orig: &dyn ScopeOps) {
             log_op(ctx, claimant, &format!("on_claimed alloc_layout {} {} 1 0 1", l.size() * n, l.align()), if r.is_ok() { "ok" } else { "err" });
         }
         2 => {
-            let n = ctx.rng.below(5000) as usize + 1;
+            let n = if ctx.rng.chance(1, 4) { 0 } else { ctx.rng.below(5000) as usize + 1 };
             let dy = ctx.rng.chance(1, 3);
             let r = orig.x_reserve(n, dy);
             ctx.count("on_claimed reserve");
@@ -525,7 +526,8 @@ fn op_typed(ctx: &mut Ctx, sc: &mut dyn ScopeOps) {
 
 fn op_reserve(ctx: &mut Ctx, sc: &mut dyn ScopeOps) {
     let rem = remaining_of(sc);
-    let n = match ctx.rng.below(4) {
+    let n = match ctx.rng.below(5) {
+        4 => 0,
         0 => ctx.rng.below(64) as usize,
         1 => rem + ctx.rng.below(64) as usize,
         2 => ctx.rng.below(10000) as usize,
@@ -896,7 +898,13 @@ fn op_aligned(ctx: &mut Ctx, sc: &mut dyn ScopeOps, orig: Option<&dyn ScopeOps>,
     let n = 1usize << ctx.rng.below(5);
     let outer = sc.x_min_align();
     let scoped = ctx.rng.chance(1, 2);
-    let panics = ctx.rng.chance(1, 8);
+    // raising the alignment of an allocated, unclaimed arena can equally be done by value:
+    // `scope.by_value().with_settings::<N>()` (same model operation: align_to, nothing on exit)
+    let by_value = !scoped && n >= outer && sc.x_dump().cur.is_some() && ctx.rng.chance(1, 2);
+    let panics = !by_value && ctx.rng.chance(1, 8);
+    if by_value {
+        ctx.br("by_value().with_settings");
+    }
     let snap = scope_snap(ctx, sc);
     if scoped {
         ctx.marks.push(ctx.next_id);
@@ -925,6 +933,32 @@ fn op_aligned(ctx: &mut Ctx, sc: &mut dyn ScopeOps, orig: Option<&dyn ScopeOps>,
         let _ = catch_unwind(AssertUnwindSafe(|| if scoped { sc.x_scoped_aligned(n, &mut body) } else { sc.x_aligned(n, &mut body) }));
     } else if scoped {
         sc.x_scoped_aligned(n, &mut body);
+    } else if by_value {
+        // `by_value()` hands out a COPY of the handle (its chunk pointer is not written back), so the
+        // region is kept free of chunk switches: entry alignment check plus at most one small allocation
+        drop(body);
+        let mut body_bv = |inner: &mut dyn ScopeOps| {
+            let d = log_op(ctx, inner, &enter, "unit");
+            if let Some(i) = d.cur {
+                if d.fwd[i].pos % n != 0 {
+                    ctx.oracle("C18", format!("after by_value().with_settings to minimum alignment {n} the position is {:#x}", d.fwd[i].pos));
+                }
+                if d.fwd[i].remaining >= 256 {
+                    let l = Layout::from_size_align(1 + ctx.rng.below(24) as usize, 1 << ctx.rng.below(4)).unwrap();
+                    let text = format!("allocate {} {} 0 p", l.size(), l.align());
+                    if let Ok((ptr, _)) = inner.x_allocate(l, false, Via::Plain, 0) {
+                        let id = ctx.add_block(ptr, l.size(), l.align(), Vec::new(), None);
+                        let d2 = log_op(ctx, inner, &text, &format!("ok {id} {ptr} {}", l.size()));
+                        if let Some(j) = d2.cur {
+                            if d2.fwd[j].pos % n != 0 {
+                                ctx.oracle("C18", format!("inside by_value().with_settings::<{n}> the position is {:#x} after an allocation", d2.fwd[j].pos));
+                            }
+                        }
+                    }
+                }
+            }
+        };
+        sc.x_by_value_with_settings(n, &mut body_bv);
     } else {
         sc.x_aligned(n, &mut body);
     }
